@@ -231,6 +231,40 @@ def sqrt_aprox_cells(V, ctx, seed):
         step = idx.d
         if set(idx.t) - {"p0"} and not all(isinstance(k, str) for k in idx.t):
             pass
+        # the cells [i*step, i*step+step-1] must tile the path's box: otherwise the index is not floor(raw/step)
+        covered = 0
+        for i in range(ilo, ihi + 1):
+            a = max(lo, i * step)
+            b = min(hi, i * step + step - 1)
+            if a <= b:
+                covered += b - a + 1
+        if covered != hi - lo + 1 or ihi - ilo > 100000:
+            V.oblige(False)
+            # generic fall-back: bisect the box until the result is a single constant
+            stack = [(lo, hi)]
+            budget = 20000
+            while stack and budget > 0:
+                a, b = stack.pop()
+                budget -= 1
+                rs = an.run(P.init_state(an.fn, [("i", a, b)]))
+                vals = set(lib.ret_rng(q) for q in rs.paths)
+                if len(vals) == 1 and next(iter(vals))[0] == next(iter(vals))[1] and not rs.alarms:
+                    Rv = next(iter(vals))[0]
+                    ncell += 1
+                    okc = Rv >= 0 and Rv * Rv * 2500 >= 2401 * 65536 * b and Rv * Rv * 2500 <= 2601 * 65536 * a
+                    if not okc and bad is None:
+                        raw = b if not (Rv >= 0 and Rv * Rv * 2500 >= 2401 * 65536 * b) else a
+                        bad = (raw, Rv, -1, (a, b))
+                    if not okc:
+                        break
+                elif a < b:
+                    mid = (a + b) // 2
+                    stack.append((a, mid))
+                    stack.append((mid + 1, b))
+            if bad is None:
+                V.inconc("w_sqrt_aprox: table index %s does not partition the box [%d,%d] into cells of %d raw values and the bisection "
+                         "fall-back found no violating cell within its budget" % (idx, lo, hi, step))
+            continue
         for i in range(ilo, ihi + 1):
             a = max(lo, i * step)
             b = min(hi, i * step + step - 1)
